@@ -69,6 +69,11 @@ def hosvd(  # noqa: PLR0912,PLR0913,PLR0915
             "Ranks must be a sequence of length tensor ndims."
             f" Ndims: {d} but got ranks: {ranks}."
         )
+    if np.any(ranks < 0) or np.any(ranks > np.array(input_tensor.shape)):
+        raise ValueError(
+            "Ranks must be between 0 (choose automatically) and the mode size."
+            f" Shape: {input_tensor.shape} but got ranks: {ranks}."
+        )
 
     # Set up dimorder if not specified (this is copy past from tucker_als
     if dimorder is None:
